@@ -668,6 +668,66 @@ func (s *c11Sess) keyvalue(n int) {
 	s.c.Count("keyvalue concurrent writers")
 }
 
+// keyvaluePutDelete: a write and a deletion of one key race in a child version whose parent holds a value for
+// the key.  Either order leaves the child with the new value or with no value; the parent's value showing through
+// is what no order produces (both acknowledged mutations lost).  Many pairs, no forced schedule: the store's
+// single-key operations have no yield point of their own.
+func (s *c11Sess) keyvaluePutDelete(pairs int) {
+	root := NewRepo()
+	NewInstance(root, "keyvalue", "kvpd", nil)
+	for i := 0; i < pairs; i++ {
+		Post(fmt.Sprintf("node/%s/kvpd/key/k%d", root, i), []byte(fmt.Sprintf("parent-%d", i)))
+	}
+	Commit(root)
+	child, r := NewVersion(root)
+	if !r.OK() {
+		return
+	}
+	base := "node/" + child + "/kvpd/"
+	const width = 8
+	type res struct{ p, d Resp }
+	out := make([]res, pairs)
+	for lo := 0; lo < pairs; lo += width {
+		var wg sync.WaitGroup
+		start := make(chan struct{})
+		for i := lo; i < lo+width && i < pairs; i++ {
+			wg.Add(2)
+			go func(i int) {
+				defer wg.Done()
+				<-start
+				out[i].p = Post(base+fmt.Sprintf("key/k%d", i), []byte(fmt.Sprintf("child-%d", i)))
+			}(i)
+			go func(i int) {
+				defer wg.Done()
+				<-start
+				out[i].d = Delete(base + fmt.Sprintf("key/k%d", i))
+			}(i)
+		}
+		close(start)
+		wg.Wait()
+	}
+	s.c.Eval("keyvalue put||delete in a child version", true)
+	s.c.Count("keyvalue put||delete pairs")
+	bad := 0
+	for i := 0; i < pairs; i++ {
+		if !out[i].p.OK() || !out[i].d.OK() {
+			continue
+		}
+		g := Get(base + fmt.Sprintf("key/k%d", i))
+		if g.Code == 404 || (g.OK() && string(g.Body) == fmt.Sprintf("child-%d", i)) {
+			continue
+		}
+		bad++
+		if bad == 1 {
+			s.report("keyvalue.put||delete", "after a concurrent acknowledged write and deletion of one key in a child version the key reads as neither order leaves it",
+				fmt.Sprintf("parent (committed): key k%d = parent-%d; child: POST key/k%d child-%d -> %d || DELETE key/k%d -> %d\nGET key/k%d at the child -> %s (expected 404 or child-%d)", i, i, i, i, out[i].p.Code, i, out[i].d.Code, i, g, i), false)
+		}
+	}
+	if bad > 0 {
+		s.c.Count(fmt.Sprintf("keyvalue put||delete torn keys: %d of %d", bad, pairs))
+	}
+}
+
 func runC11(c *Ctx) {
 	c.Rule = "a case is one group of 2..N requests run concurrently with a barrier installed at the yield point of the read-modify-write sequence they share (annotation element store / delete / move in one block and tag, merges into one body, new-version on one parent, partial updates of one neuron annotation, key-value writes), followed by the comparison of the quiescent state with what the acknowledged requests produce in a sequential order. non-trivial = every group (the forced schedule is attempted for each; whether the requests really were between read and write at the same time is recorded per site in the distribution — on a covered site they cannot be); distinct by site and group size"
 	OpenServer()
@@ -698,5 +758,10 @@ func runC11(c *Ctx) {
 		s.neuronjson(n)
 		s.neuronjsonStaggered()
 		s.keyvalue(4 + n)
+	}
+	if c.Thorough {
+		s.keyvaluePutDelete(8000)
+	} else {
+		s.keyvaluePutDelete(2500)
 	}
 }
